@@ -304,41 +304,61 @@ def render (env : RenderEnv) (pg : Page) (sym : Bytes) (values : List (Bytes × 
   | some sz => if (sz.check r).2 then pure (r, pg) else .err "limit-exceeded"
   | none => pure (r, pg)
 
+/-- `"_menu"` and `"\n{{._menu}}"` as explicit bytes (so that the kernel can evaluate the renderer on
+concrete cases); `#guard` below checks them against the strings. -/
+def menuSinkSym : Bytes := [95, 109, 101, 110, 117]
+def menuSinkExtra : Bytes := [10, 123, 123, 46, 95, 109, 101, 110, 117, 125, 125]
+#guard menuSinkSym = ascii "_menu" && menuSinkExtra = ascii "\n{{._menu}}"
+
+/-- first half of `prepare`: extract the sink (a mapped zero-size symbol, or the menu under MSINK) -/
+def prepareSink (env : RenderEnv) (pg : Page) (ca : Cache Bytes) (sz0 : Sizer) :
+    Res (List (Bytes × Bytes) × Bytes × List Bytes × Page × Sizer × Bool) := do
+  let values := pg.cacheMap
+  let (noSink, sink, rows) ← split ca values
+  -- when no symbol is a sink `split` hands back the very map it was given: later writes to
+  -- `noSinkValues` then land in `pg.cacheMap` too
+  let aliased := sink.isEmpty
+  if pg.menu.sink then
+    if !sink.isEmpty then Res.err "menu-sink-and-mapped-sink"
+    else
+      match ({ pg.menu with keep := false }.withPages).render env 0 with
+      | .ok (s, m) =>
+        let rows := splitOn 0x0a s
+        let sink : Bytes := menuSinkSym
+        let pg := { pg with menu := m, extra := menuSinkExtra }
+        let sz := { sz0 with sink := sink }
+        .ok (AList.set sink [] noSink, sink, rows, pg, sz, aliased)
+      | .err k => .err k
+      | .panic p => .panic p
+  else .ok (noSink, sink, rows, pg, sz0, aliased)
+
+/-- second half of `prepare`: pre-render without sink content, measure what is left, group the
+rows into pages -/
+def prepareRest (env : RenderEnv) (sym : Bytes)
+    (t : List (Bytes × Bytes) × Bytes × List Bytes × Page × Sizer × Bool) :
+    Res (List (Bytes × Bytes) × Page) := do
+  let (noSink, sink, rows, pg, sz, aliased) := t
+  let sz := sz.addCursor 0
+  let pg := { pg with sizer := some sz, cacheMap := if aliased then noSink else pg.cacheMap }
+  let (s, pg) ← pg.render env sym noSink 0
+  let sz := match pg.sizer with | some s => s | none => sz
+  let (remaining, ok) := sz.check s
+  if !ok then .err "capacity-exceeded" else do
+  let ms ← pg.menu.sizes env
+  let (sinkString, count, crsrs) ← joinSink rows remaining ms sz.crsrs
+  let sz := { sz with crsrs := crsrs }
+  let noSink := AList.set sink sinkString noSink
+  let pg := { pg with sizer := some sz, menu := { pg.menu with pageCount := count },
+                      cacheMap := if aliased then noSink else pg.cacheMap }
+  pure (noSink, pg)
+
 /-- `prepare(sym, values, idx)` -/
 def prepare (env : RenderEnv) (pg : Page) (ca : Cache Bytes) (sym : Bytes) : Res (List (Bytes × Bytes) × Page) :=
   match pg.sizer with
   | none => .ok (pg.cacheMap, pg)
   | some sz0 => do
-    let values := pg.cacheMap
-    let (noSink, sink, rows) ← split ca values
-    -- when no symbol is a sink `split` hands back the very map it was given: later writes to
-    -- `noSinkValues` then land in `pg.cacheMap` too
-    let aliased := sink.isEmpty
-    let (noSink, sink, rows, pg, sz) ←
-      if pg.menu.sink then
-        if !sink.isEmpty then Res.err "menu-sink-and-mapped-sink"
-        else do
-          let m := { pg.menu with keep := false }.withPages
-          let (s, m) ← m.render env 0
-          let rows := splitOn 0x0a s
-          let sink := ascii "_menu"
-          let pg := { pg with menu := m, extra := ascii "\n{{._menu}}" }
-          let sz := { sz0 with sink := sink }
-          pure (AList.set sink [] noSink, sink, rows, pg, sz)
-      else pure (noSink, sink, rows, pg, sz0)
-    let sz := sz.addCursor 0
-    let pg := { pg with sizer := some sz, cacheMap := if aliased then noSink else pg.cacheMap }
-    let (s, pg) ← pg.render env sym noSink 0
-    let sz := match pg.sizer with | some s => s | none => sz
-    let (remaining, ok) := sz.check s
-    if !ok then .err "capacity-exceeded" else do
-    let ms ← pg.menu.sizes env
-    let (sinkString, count, crsrs) ← joinSink rows remaining ms sz.crsrs
-    let sz := { sz with crsrs := crsrs }
-    let noSink := AList.set sink sinkString noSink
-    let pg := { pg with sizer := some sz, menu := { pg.menu with pageCount := count },
-                        cacheMap := if aliased then noSink else pg.cacheMap }
-    pure (noSink, pg)
+    let t ← prepareSink env pg ca sz0
+    prepareRest env sym t
 
 /-- `Render(sym, idx)` -/
 def renderPage (env : RenderEnv) (pg : Page) (ca : Cache Bytes) (sym : Bytes) (idx : Nat) :
